@@ -59,7 +59,7 @@ const (
 	sinkDistribute
 	sinkLoad
 	sinkCount
-	sinkPeekSplit // Next + PushBack, then several consumers sharing the stream through Split()
+	sinkPeekSplit  // Next + PushBack, then several consumers sharing the stream through Split()
 	sinkPairedWith // the stream of the mates, as the paired writers derive it for the second file
 	nSinks
 )
